@@ -844,6 +844,11 @@ impl C20 {
 							}
 							out
 						};
+						if std::env::var("GWSIM_DBG").is_ok() {
+							for (ord, sp) in &serial {
+								eprintln!("DBG serial {:?}: interleaved-only {:?} serial-only {:?}", ord, msub(&pr, sp), msub(sp, &pr));
+							}
+						}
 						let extra: Vec<String> = msub(&pr, &best.1);
 						let missing: Vec<String> = msub(&best.1, &pr);
 						let kind = extra
